@@ -195,13 +195,16 @@ def cases(tier):
         alpha = set(t) | set('x_1$ (\n')
         cs.append(LexCase('keyword/%s' % t, ('helper', 'keyword', t), [len(t), len(t) + 1, len(t) + 2], alpha, ref_keyword(t), prop='C13'))
     for t in (';', '<=', '('):
-        alpha = set(t) | set('x= \t\n')
+        alpha = set(t) | set('x= \t\n\x0c')
         cs.append(LexCase('symbol/%s' % t, ('helper', 'symbol', t), [len(t), len(t) + 1, len(t) + 2], alpha, ref_symbol(t), prop='C12'))
     cs.append(LexCase('comment', ('production', 'comment'), list(range(0, N + 2)), '/*x\n', ref_comment, prop='C12'))
     cs.append(LexCase('string_literal_impl', ('production', 'string_literal_impl'), list(range(0, N + 2)), '"\\x', ref_string, prop='C06'))
     cs.append(LexCase('simple_identifier_impl', ('production', 'simple_identifier_impl'), list(range(0, N + 1)), 'aZ_1$ -', ref_simple_identifier(True), prop='C13', is_keyword=False))
     cs.append(LexCase('c_identifier_impl', ('production', 'c_identifier_impl'), list(range(0, N + 1)), 'aZ_1$ -', ref_simple_identifier(False), prop='C13', is_keyword=False))
     cs.append(LexCase('white_space', ('production', 'white_space'), list(range(0, N + 1)), ' \t\n\x0cx/', ref_white_space, prop='C12'))
+    # bytes that are NOT white space in IEEE 1800-2017 5.3 (space, tab, newline, formfeed; CR as part of a line end): vertical tab,
+    # other control characters, DEL and a non-ASCII symbol (U+00A0, white space for Unicode but not for SystemVerilog)
+    cs.append(LexCase('white_space/control', ('production', 'white_space'), list(range(0, min(N, 3) + 1)), ' \r\x0b\x00\x1f\x7f\xa0x', ref_white_space, prop='C12'))
     cs.append(LexCase('preprocessor_text', ('production-all', 'preprocessor_text'), list(range(0, N + 1)), 'a /*"\\\n', ref_pp_text, compare=cmp_accept_all, prop='C06'))
     return cs
 
@@ -276,6 +279,9 @@ def native_lex(lc, text):
         def isin(self, i, chars):
             return i < len(text) and text[i] in chars
     ref = lc.reffn(RC())
+    if len(ref) > 1 and isinstance(ref[1], int):
+        # the reference counts characters, the real lexer bytes
+        ref = (ref[0], len(text[:ref[1]].encode('utf-8'))) + tuple(ref[2:])
     real = ('ok', r['consumed']) if r.get('ok') else ('err',)
     if lc.entry[0] == 'production-all':
         real = ('ok',) if (r.get('ok') and r['consumed'] == len(text)) else ('err',)
